@@ -196,24 +196,29 @@ theorem startMP_top (p : PW) (mt given fresh : Bytes) (hs : p.stack = []) :
   · simp [PW.out, planBytes, WAct.bytes, List.append_assoc]
   · simp [hs]
 
+theorem markUser_out (s : MsgState) (p : PW) : (markUser s p).out = p.out := by
+  unfold PW.out; simp
+
 theorem view_openLayer (s : MsgState) (p : PW) (mt cached fresh : Bytes) :
     (openLayer s p mt cached fresh).1.view = tstep p.view (.opn mt (openLayer s p mt cached fresh).2) := by
   unfold openLayer
   simp only []
   cases hs : p.stack with
   | nil =>
-    obtain ⟨h1, h2⟩ := startMP_top p mt (givenBoundary s p cached) fresh hs
-    have hdep : ((p.startMP mt (givenBoundary s p cached) fresh).1.depth == 1) = true := by simp [PW.depth, h2]
+    have hq : (markUser s p).stack = [] := by simp [hs]
+    obtain ⟨h1, h2⟩ := startMP_top (markUser s p) mt (givenBoundary s p cached) fresh hq
+    have hdep : (((markUser s p).startMP mt (givenBoundary s p cached) fresh).1.depth == 1) = true := by simp [PW.depth, h2]
     simp only [hdep, if_true]
-    obtain ⟨h3, h4⟩ := str_out (p.startMP mt (givenBoundary s p cached) fresh).1 (crlf ++ crlf)
-    simp only [PW.view, tstep, hs, h3, h4, h1, h2]
+    obtain ⟨h3, h4⟩ := str_out ((markUser s p).startMP mt (givenBoundary s p cached) fresh).1 (crlf ++ crlf)
+    simp only [PW.view, tstep, hs, h3, h4, h1, h2, markUser_out]
     simp [multiHead, List.append_assoc]
   | cons x rest =>
     obtain ⟨b, l⟩ := x
-    obtain ⟨h1, h2⟩ := startMP_nested p mt (givenBoundary s p cached) fresh b l rest hs
-    have hdep : ((p.startMP mt (givenBoundary s p cached) fresh).1.depth == 1) = false := by simp [PW.depth, h2]
+    have hq : (markUser s p).stack = (b, l) :: rest := by simp [hs]
+    obtain ⟨h1, h2⟩ := startMP_nested (markUser s p) mt (givenBoundary s p cached) fresh b l rest hq
+    have hdep : (((markUser s p).startMP mt (givenBoundary s p cached) fresh).1.depth == 1) = false := by simp [PW.depth, h2]
     simp only [hdep, Bool.false_eq_true, if_false]
-    simp only [PW.view, tstep, hs, h1, h2]
+    simp only [PW.view, tstep, hs, h1, h2, markUser_out]
 
 theorem trun_append (a b : List Op) (v : View) : trun (a ++ b) v = trun b (trun a v) := by
   simp [trun, List.foldl_append]
